@@ -146,7 +146,7 @@ def check_tail_invariant(ctx, F, tag, prefix="C05.R1"):
             for bi, si, st in b.stmts():
                 if st["s"] == "assign" and st["lhs"]["p"] == ["deref"] and b.local_ty(st["lhs"]["l"]) == "&mut u64":
                     src = b.term_of_local(st["lhs"]["l"])
-                    if any(x[0] == "call" and x[1].endswith("::iter_mut") for x in subterms(src)):
+                    if any(x[0] == "call" and (x[1].endswith("::iter_mut") or (x[1].endswith("::into_iter") and any(y[0] == "field" and y[2] == "data" for y in subterms(x)))) for x in subterms(src)):
                         trig.append((bi, "whole-word store through data.iter_mut()", st["sp"]))
         if not trig:
             continue
